@@ -176,6 +176,52 @@ def first_call_scenarios(ctx):
                      required={'later': ['select 1;', 'select 2']})
 
 
+ORDER_SCRIPT = r"""
+import sys, json
+sys.path.insert(0, %(repo)r)
+import sqlparse
+TEXTS = ["select a+b, c*d as e, 'a long literal' from t1 x, t2 y where x.i>=1 and y.j<>-2 /* c */ or f(a, b)=case when a then b else c end -- d\norder by 1",
+         "select a, b, c, d from t where x in (select y from u where z = 1) group by a, b having count(*) > 1; insert into t values (1, 'x')"]
+OPTS = %(opts)r
+order = %(order)r
+res = {}
+for i in order:
+    res[i] = [sqlparse.format(t, **OPTS[i]) for t in TEXTS]
+print(json.dumps([res[i] for i in range(len(OPTS))]))
+"""
+
+
+def cross_option_independence(ctx):
+    """the same calls in two fresh interpreters, in opposite orders: a result must not depend on which OTHER option sets were used earlier in the process
+    (a cache whose key leaves out an option, a helper object shared by differently configured filters).  Within one process such a dependence is invisible
+    once the cache is filled — hence two processes."""
+    import subprocess, json
+    opts = [{'reindent': True, 'indent_tabs': True}, {'reindent': True}, {'reindent': True, 'indent_width': 5}, {'reindent': True, 'indent_width': 1}, {'reindent': True, 'wrap_after': 12},
+            {'reindent': True, 'comma_first': True}, {'reindent': True, 'indent_columns': True}, {'reindent': True, 'compact': True}, {'reindent': True, 'indent_after_first': True},
+            {'reindent_aligned': True}, {'reindent_aligned': True, 'indent_tabs': True}, {'keyword_case': 'upper'}, {'keyword_case': 'lower'}, {'keyword_case': 'capitalize'},
+            {'identifier_case': 'upper'}, {'identifier_case': 'lower'}, {'truncate_strings': 3}, {'truncate_strings': 5, 'truncate_char': '~'}, {'output_format': 'python'},
+            {'output_format': 'php'}, {'strip_comments': True}, {'strip_whitespace': True}, {'use_space_around_operators': True}, {}]
+    outs = []
+    orders = [list(range(len(opts))), list(range(len(opts)))[::-1]]
+    sh = list(range(len(opts)))
+    ctx.rng.shuffle(sh)
+    orders.append(sh)
+    for order in orders:
+        p = subprocess.run([sys.executable, '-c', ORDER_SCRIPT % {'repo': REPO, 'opts': opts, 'order': order}], stdout=subprocess.PIPE, stderr=subprocess.PIPE, timeout=300)
+        if p.returncode != 0:
+            ctx.notes.append('cross_option_independence: subprocess exited with %d: %s' % (p.returncode, p.stderr.decode()[-200:]))
+            return
+        outs.append(json.loads(p.stdout.decode()))
+        ctx.evaluations += len(opts) * 2
+    for k in range(1, len(outs)):
+        for i in range(len(opts)):
+            if outs[k][i] != outs[0][i]:
+                ctx.fail('the result of format() depends on which other option sets were used earlier in the process', 'options %r after the calls of order %r' % (opts[i], orders[k]),
+                         observed=str(outs[k][i])[:300], required=str(outs[0][i])[:300], order_probe=[i, orders[k]])
+                return
+    ctx.count('cross-option independence (3 process orders)')
+
+
 def history_runs(ctx):
     import sqlparse
     from sqlparse import lexer, tokens as T, keywords
@@ -186,10 +232,18 @@ def history_runs(ctx):
         out = [(sqlparse.split(p), [streams.sexp(s) for s in sqlparse.parse(p)], sqlparse.format(p, reindent=True, keyword_case='upper')) for p in PROBES]
         # every filter at least once, on a text with operators, comments, literals, a list and a CASE: a helper object a filter shares between calls shows here
         OPS = "select a+b, c*d as e, 'a long literal' from t1 x, t2 y where x.i>=1 and y.j<>-2 /* c */ or f(a, b)=case when a then b else c end -- d\norder by 1"
-        for o in ({'use_space_around_operators': True}, {'strip_comments': True}, {'strip_whitespace': True}, {'reindent_aligned': True}, {'truncate_strings': 3},
+        optsets = [{'use_space_around_operators': True}, {'strip_comments': True}, {'strip_whitespace': True}, {'reindent_aligned': True}, {'truncate_strings': 3},
                   {'output_format': 'python'}, {'reindent': True, 'comma_first': True, 'indent_columns': True}, {'identifier_case': 'upper', 'keyword_case': 'capitalize'},
-                  {'strip_comments': True, 'use_space_around_operators': True, 'reindent': True}):
-            out.append(sqlparse.format(OPS, **o))
+                  {'strip_comments': True, 'use_space_around_operators': True, 'reindent': True}, {'reindent': True, 'indent_tabs': True}, {'reindent': True, 'indent_width': 5},
+                  {'reindent': True}, {'reindent': True, 'wrap_after': 12}, {'reindent': True, 'compact': True}, {'reindent': True, 'indent_after_first': True}]
+        # the calls are made in a different order every time and the results stored by option set: a result that depends on which OTHER option set
+        # was used before it (a cache keyed too coarsely, a helper object shared between filters) differs from the first round
+        order = list(range(len(optsets)))
+        rng.shuffle(order)
+        res = {}
+        for i in order:
+            res[i] = sqlparse.format(OPS, **optsets[i])
+        out += [res[i] for i in range(len(optsets))]
         out += [(sqlparse.split(b), [streams.sexp(s) for s in sqlparse.parse(b)], sqlparse.format(b, keyword_case='upper')) for b in BPROBES]
         out.append([(str(tt), v) for tt, v in lexer.tokenize(BPROBES[1])])
         return out
@@ -208,7 +262,7 @@ def history_runs(ctx):
     def op_split(): sqlparse.split(gen.mixed(rng))
     def op_format(): sqlparse.format(grammar.render_script([g.stmt()], grammar.Layout(rng)), reindent=rng.random() < 0.5, strip_comments=rng.random() < 0.5,
                                      keyword_case=rng.choice([None, 'upper', 'lower']), use_space_around_operators=rng.random() < 0.3, reindent_aligned=rng.random() < 0.2,
-                                     output_format=rng.choice([None, 'python', 'php']))
+                                     output_format=rng.choice([None, 'python', 'php']), **rng.choice([{}, {}, {'indent_tabs': True}, {'indent_width': rng.choice([1, 3, 8])}, {'truncate_strings': 2}, {'identifier_case': 'upper'}]))
     def op_abandon():
         it = sqlparse.parsestream(io.StringIO("select 1; select 2; select 3"))
         next(it)
@@ -521,6 +575,7 @@ def contention_soak(ctx):
 
 
 def run(ctx):
+    cross_option_independence(ctx)
     confinement(ctx)
     contention_soak(ctx)
     first_call_scenarios(ctx)
@@ -534,6 +589,9 @@ def replay(ctx, payload):
     inp = payload['input']
     c2 = ctx
     n0 = len(ctx.failures)
+    if (payload.get('extra') or {}).get('order_probe'):
+        cross_option_independence(ctx)
+        return len(ctx.failures) > n0
     if isinstance(inp, dict) and 'limit' in inp:
         src = FIRST_CALL_SCRIPT % {'repo': REPO, 'limit': inp['limit'], 'depth': inp['depth']}
         p = subprocess.run([PY, '-c', src], stdout=subprocess.PIPE, stderr=subprocess.PIPE, text=True, timeout=120)
